@@ -1244,7 +1244,7 @@ func TestVerifC06(t *testing.T) {
 	p := l2Profile{kinds: []string{"create", "create", "create", "create", "select", "select", "reopen", "update", "advance", "idleclose"}, maxOps: 16,
 		ttl: []int{400}, legacy: true, zones: l2Zones}
 	verifkit.Run(t, verifkit.Spec[sCase]{
-		Property: "C06", Unit: "storage_l2",
+		Property: "C06", Unit: "storage_l2", CrashReplay: true,
 		Rule: "a configuration (unit hour/day, multiple 1..48, zone from 9 zones incl. DST and odd offsets, base instants around DST switches, optional " +
 			"pre-existing off-grid legacy segments) and 1..16 operations create(ts near grid lines / random / duplicate), select(range), reopen, " +
 			"update(interval), advance clock, idle-close against the real OpenTSDB with a mock clock; oracle: interval-set model - after every step " +
@@ -1280,7 +1280,7 @@ func TestVerifC07(t *testing.T) {
 	p := l2Profile{kinds: []string{"create", "create", "create", "select", "select", "retention", "retention", "forced", "advance", "advance", "hold", "release", "ttl", "reopen", "peek"}, maxOps: 20,
 		ttl: []int{1, 1, 2, 3}, legacy: false, zones: []string{"UTC", "Asia/Shanghai", "America/New_York"}}
 	verifkit.Run(t, verifkit.Spec[sCase]{
-		Property: "C07", Unit: "storage_l2",
+		Property: "C07", Unit: "storage_l2", CrashReplay: true,
 		Rule: "short TTLs (1-3 days) with hour/day intervals, 1..20 operations create / select / hold / release / advance clock (minutes to a week) / " +
 			"scheduled retention run (now = clock +- skew) / forced oldest-segment cleanup against the real storage layer with a mock clock; oracle: a " +
 			"retention run removes exactly the segments whose end <= now - TTL and no other; forced cleanup removes exactly the oldest segment iff more " +
@@ -1314,7 +1314,7 @@ func TestVerifC14(t *testing.T) {
 	p := l2Profile{kinds: []string{"create", "create", "hold", "hold", "release", "release", "idleclose", "idleclose", "retention", "forced", "select", "advance", "reopen", "peek", "peek", "poison", "poison", "heal", "tickacquire", "tickacquire"}, maxOps: 24,
 		ttl: []int{1, 2, 400}, legacy: false, zones: []string{"UTC", "Asia/Shanghai"}}
 	verifkit.Run(t, verifkit.Spec[sCase]{
-		Property: "C14", Unit: "storage_l2",
+		Property: "C14", Unit: "storage_l2", CrashReplay: true,
 		Rule: "1..24 operations over up to ~8 segments and 3 holder slots: create(+optionally keep the reference), hold(range) (= SelectSegments kept), " +
 			"release(slot), idle-close, retention delete, forced delete, select, advance, restart; oracle (reference model per segment {holders, open, " +
 			"on disk, flagged}): after every step refCount == holders, open/closed state, directory existence and list membership equal the model; a held " +
@@ -1345,7 +1345,7 @@ func TestVerifC19Storage(t *testing.T) {
 	p := l2Profile{kinds: []string{"create", "create", "create", "hold", "release", "release", "idleclose", "idleclose", "litter", "litter", "snapshot", "snapshot", "select", "advance", "reopen"},
 		maxOps: 20, ttl: []int{400}, legacy: false, zones: []string{"UTC"}}
 	verifkit.Run(t, verifkit.Spec[sCase]{
-		Property: "C19", Unit: "storage_snapshot",
+		Property: "C19", Unit: "storage_snapshot", CrashReplay: true,
 		Rule: "1..20 operations on a real TSDB (2 shards, file-backed stand-in tables): create a segment / write a row (optionally keeping the reference), hold, " +
 			"release, idle-close, restart, litter (engine artifacts placed in a shard directory: part directories, *.snp manifests, *.snp.tmp and *.tmp leftovers " +
 			"that sort before and after them, idx / sidx directories, lock file, failed-parts) and TakeFileSnapshot at generated positions over open, dormant and " +
